@@ -275,6 +275,21 @@ class Exec:
                     await self.sched.cancel_task(tid)
 
                 self.op_task = self.loop.do(self.loop.create_task, drv())
+        elif op[0] == "shutdown":
+            # the pool is shut down while tasks wait or run: every one of them is cancelled by the pool and must end final
+            for i, tid in self.tids.items():
+                st = self.sched.task_states.get(tid)
+                if st is not None and st.name in ("SUBMITTED", "RUNNING"):
+                    self.facts[i]["cancel_nonfinal"] = True
+                    if self.facts[i]["exit"] == 0:
+                        self.facts[i]["cancel_after_exit0"] = True
+                    elif self.facts[i]["exit"] is not None:
+                        self.facts[i]["shutdown_after_failed_exit"] = True  # its process had already failed: the shutdown cancels a worker that is about to record that
+
+            async def drv():
+                await self.sched.shutdown()
+
+            self.op_task = self.loop.do(self.loop.create_task, drv())
         else:
             raise AssertionError(op)
 
@@ -455,6 +470,8 @@ class Exec:
         enqueued; exactly `cores` of them must be running at the next quiescent point, and all of them must run eventually.
         Observes processes only (no scheduler internals)."""
         cores = self.sc["cores"]
+        if self.sc.get("no_probe"):
+            return []  # (a pool that was shut down takes no more tasks)
         if any(p.alive for p in self.world.procs) or any(not t.done() for t in self.sched.tasks.values()):
             return []  # reported elsewhere
         saved, self.world.listeners = self.world.listeners, []
